@@ -96,7 +96,10 @@ impl Feat {
     }
 }
 
-const PARAM_NAMES: [&str; 8] = ["qty", "amount_in", "deadline", "who", "tag", "flag", "utxo_in", "extra"];
+// the last four are spelled like the built-in functions: a declared name shadows a built-in (a call has
+// parentheses, a plain name is whatever was declared)
+const PARAM_NAMES: [&str; 12] =
+    ["qty", "amount_in", "deadline", "who", "tag", "flag", "utxo_in", "extra", "min_utxo", "tip_slot", "slot_to_time", "time_to_slot"];
 const ENV_NAMES: [&str; 4] = ["fee_cap", "net_tag", "treasury", "anchor"];
 const PARTY_NAMES: [&str; 4] = ["Sender", "Receiver", "Operator", "Vault"];
 const POLICY_NAMES: [&str; 3] = ["Gate", "Lock", "Minter"];
